@@ -314,8 +314,13 @@ def run_history(run: Run, stream, case, rows):
         world = GCWorld(case["xml"], rng, case["hold_p"], case["doc_mode"])
         try:
             world.check_all()
-            for _ in range(case["length"]):
-                op = E.gen_op(rng, world.mirror)
+            if "micro" in case:
+                cands = all_ops(world.mirror)
+                planned = [cands[case["micro"] % len(cands)]] if cands else []
+            else:
+                planned = None
+            for i in range(case["length"] if planned is None else len(planned)):
+                op = E.gen_op(rng, world.mirror) if planned is None else planned[i]
                 if not world.step(op):
                     continue
                 steps += 1
@@ -377,6 +382,64 @@ def compare_with_model(run: Run, rows):
                 break
 
 
+def all_ops(mirror):
+    """every single editing call applicable to the document tree (deterministic order): the multi-step methods are the
+    ones a collection in the middle can disturb (they look up a position, move text, then insert)"""
+    ops = []
+    STR, DEF = {"str": "N"}, {"def": ["n", [], [{"str": "in"}]]}
+    for p, n in E.walk(mirror.groups[0]):
+        nid = E.tid(n)
+        if p:
+            for it in (STR, DEF):
+                ops.append({"op": "add_following", "target": nid, "items": [it]})
+                ops.append({"op": "add_preceding", "target": nid, "items": [it]})
+                ops.append({"op": "replace", "target": nid, "items": [it]})
+            ops.append({"op": "add_preceding", "target": nid, "items": [STR, DEF, STR]})
+            ops.append({"op": "detach", "target": nid, "retain": False})
+            if n[0] == "t":
+                ops.append({"op": "detach", "target": nid, "retain": True})
+        if n[0] == "t":
+            ops.append({"op": "append", "target": nid, "items": [STR, DEF]})
+            ops.append({"op": "merge", "target": nid})
+            for i in range(len(n[5]) + 1):
+                ops.append({"op": "insert", "target": nid, "index": i, "items": [DEF]})
+                ops.append({"op": "insert", "target": nid, "index": i, "items": [STR, DEF]})
+            for i in range(len(n[5])):
+                ops.append({"op": "delitem", "target": nid, "index": i})
+    return ops
+
+
+MICRO_DOCS = [
+    "<r><a/>t1<x><y/></x>t2<b/></r>",
+    "<r>t0<x>in<y/>side</x>t2</r>",
+    "<r><a/>t1<!--c-->t2<x><y/>z</x>t3<?p d?>t4</r>",
+    "<r><a>1</a>2<a>3<a>4</a>5</a>6</r>",
+]
+
+
+def count_ops(xml):
+    from delb import Document
+
+    import random as _r
+    w = GCWorld(xml, _r.Random(0), 0.0, "doc-only")
+    return len(all_ops(w.mirror))
+
+
+def micro_cases(rng, n, systematic_docs=()):
+    """one call per case, collections fired inside the call (allocation threshold 1), few or no nodes held;
+    every applicable call on `systematic_docs`, a random sample on the other documents"""
+    out = []
+    for xml in systematic_docs:
+        for k in range(count_ops(xml)):
+            out.append({"xml": xml, "seed": rng.randrange(1 << 30), "mode": "auto", "hold_p": 0.0,
+                        "doc_mode": rng.choice(["doc-only", "root-only", "both"]), "length": 1, "micro": k})
+    for _ in range(n):
+        out.append({"xml": rng.choice(MICRO_DOCS + E.DOCS), "seed": rng.randrange(1 << 30), "mode": "auto",
+                    "hold_p": rng.choice([0.0, 0.0, 0.15, 0.3]), "doc_mode": rng.choice(["doc-only", "root-only", "both"]),
+                    "length": 1, "micro": rng.randrange(1 << 20)})
+    return out
+
+
 def gen_case(rng):
     return {
         "xml": E.pick_doc(rng), "seed": rng.randrange(1 << 30), "mode": rng.choice(MODES),
@@ -412,6 +475,8 @@ def check(run: Run, lean: dict) -> int:
         run_history(run, "corpus", c, rows)
     for _ in range(n):
         run_history(run, "generated", gen_case(run.rng), rows)
+    for c in micro_cases(run.rng, n // 3, MICRO_DOCS if run.tier == "quick" else MICRO_DOCS + E.DOCS):
+        run_history(run, "single call, collections inside", c, rows)
     if ok:
         compare_with_model(run, rows)
     return run.finish(lean, LEVEL, ASSUME, search=search)
@@ -419,7 +484,7 @@ def check(run: Run, lean: dict) -> int:
 
 def search(run: Run):
     probe = Run(run.prop, run.tier, run.seed)
-    cands = [m["case"] for m in run.mismatches] + corpus() + [gen_case(run.rng) for _ in range(4000)]
+    cands = [m["case"] for m in run.mismatches] + corpus() + micro_cases(run.rng, 3000) + [gen_case(run.rng) for _ in range(4000)]
     for c in cands:
         p = run_history(probe, "search", c, [])
         if p:
